@@ -115,8 +115,6 @@ def explain(case, f):
         ids.append("C08-fill-split-path")
     if fill == "prev" and n_cols(q) >= 2 and ft["partial_row"]:
         ids.append("C08-fill-previous-multicolumn")
-    if fill == "prev" and ft.get("single_row_group"):
-        ids.append("C08-fill-previous-single-row-group")
     if fill == "prev" and desc and ft["empty_bucket"]:
         ids.append("C08-fill-previous-desc")
     if q["kind"] == "agg" and desc and any(a["fn"] in ("first", "last") for a in q["aggs"]):
@@ -131,6 +129,8 @@ def explain(case, f):
     if (q["kind"] == "agg" and n_cols(q) >= 2 and any(a["fn"] in ("first", "last") for a in q["aggs"])
             and len({a["f"] for a in q["aggs"]}) >= 2 and ft.get("multi_series_group") and cf.get("phase") == "mem"):
         ids.append("C08-multicolumn-first-last-across-series")
+    if fill == "prev" and ft.get("single_row_group"):
+        ids.append("C08-fill-previous-single-row-group")   # last: a failure is attributed to it only when nothing else explains it
     return ids
 
 
